@@ -319,9 +319,11 @@ class Translator:
     def expr(self, node, env):
         k = self.key(node)
         if k in self.consts:
-            term, typ = self.consts[k]
+            term, typ = self.consts[k][:2]
             if "{st}" in term and "__st" in env:
                 term = term.replace("{st}", env["__st"].term)        # a test the spec maps to the state record
+            if len(self.consts[k]) == 3 and self.consts[k][2] == "raises":
+                return V(self.hoist(term, typ, node), typ)            # an external the spec names for this expression; it may raise
             return V(term, typ)
         if k in self.places:
             if k in self.pairdicts:
@@ -1625,6 +1627,20 @@ class Translator:
                 env2, line = self.bind(c0.func.value, new, env, st)
                 return line + "\n" + self.block(rest, env2, frame)
             return self.with_hoists(hs, env, frame, inner_add)
+        if (isinstance(c0, ast.Call) and isinstance(c0.func, ast.Attribute) and c0.func.attr == "update" and len(c0.args) == 1
+                and not c0.keywords and self.key(c0.func.value) in self.places and self.places[self.key(c0.func.value)][2].startswith("Table ")):
+            # `d.update(other)` on a dict place, `other` a dict of the same type
+            pk = self.key(c0.func.value)
+            v, hs = self.eval(c0.args[0], env)
+            if v.typ != self.places[pk][2]:
+                self.bad(st, f"update() of a {self.places[pk][2]} with {v.typ}")
+
+            def inner_upd():
+                cur = self.read_place(pk, env, st)
+                new = V(f"(PyRt.tableUpdate {cur.term} {v.term})", cur.typ)
+                env2, line = self.bind(c0.func.value, new, env, st)
+                return line + "\n" + self.block(rest, env2, frame)
+            return self.with_hoists(hs, env, frame, inner_upd)
         ap = self.append_call(st)
         if ap is not None:
             pk, arg = ap
